@@ -1,16 +1,18 @@
-(* NumBridge: connects the Json round-trip theorems with Num/F64Proofs.
-   - Hnum_syntax is DISCHARGED: the text format_json produces for a real float64 is always a
-     JSON number literal (format_json_is_json_number).
-   - Hnum_roundtrip is discharged for the numbers that encoding/json prints in positional
-     notation (0, and 1e-6 <= |x| < 1e21) via F64Proofs.format_f_roundtrip; for the exponent
-     notation it stays a hypothesis (no proof of format_json's exponent branch exists yet). *)
+(* Proofs/PrettyJsonNum.v -- discharges the number side condition of Proofs/PrettyJson.v:
+   format_f of a finite double is a JSON number literal, hence pretty_is_json in full.
+   The lemmas of the first part (the number DFA on digit strings, the head digit of
+   digits_of_Z, render_pos) are COPIED VERBATIM from Json/NumBridge.v (json layer), where they
+   are used for format_json, so that this file does not depend on a file that is still
+   changing; the proof of format_f_json_number follows the positional branch of
+   NumBridge.format_json_is_json_number. *)
 From Coq Require Import NArith ZArith List Bool Lia.
 From JQ Require Import Base.Bytes Num.F64 Num.F64Proofs Json.JValue Json.Decode Json.Encode Json.JsonProofs.
+From JQ Require Import Spec.Pure.
+From JQ Require Import Proofs.PrettyJson.
 Import ListNotations.
 Local Open Scope N_scope.
 
-Lemma Some_inj : forall (A : Type) (x y : A), Some x = Some y -> x = y.
-Proof. intros A x y H. exact (f_equal (fun o => match o with Some z => z | None => x end) H). Qed.
+(* ---- begin copy of Json/NumBridge.v ---- *)
 
 (* ------------------------------------------------------------------ *)
 (* The number DFA on digit strings                                      *)
@@ -199,123 +201,56 @@ Proof.
   - eauto.
 Qed.
 
-(* ------------------------------------------------------------------ *)
-(* Hnum_syntax, discharged                                              *)
-
-Theorem format_json_is_json_number : forall x b, format_json x = Some b -> json_number b = true.
-Proof.
-  intros x b H. destruct x as [s|s| |s m e]; cbn [format_json] in H; try discriminate.
-  - apply Some_inj in H; subst b. destruct s; vm_compute; reflexivity.
-  - destruct (f_ltb (f_abs (S754_finite s m e)) f_1e_6 || negb (f_ltb (f_abs (S754_finite s m e)) f_1e21)).
-    + destruct (shortest m e) as [d p]. apply Some_inj in H; subst b.
-      apply json_number_render_exp; [apply digits_of_Z_nonempty|apply digits_of_Z_digits].
-    + apply Some_inj in H; subst b. unfold format_f.
-      destruct (pf_is (parse_float (fmt_candidate s m e)) (S754_finite s m e)) eqn:Hacc.
-      * unfold fmt_candidate in *. destruct (shortest m e) as [d p].
-        destruct (Z_lt_le_dec 0 d) as [Hd|Hd].
-        -- destruct (digits_of_Z_head d Hd) as (c & r & Hds & Hc).
-           eapply json_number_render_pos; [exact Hds|exact Hc|]. apply digits_of_Z_digits.
-        -- rewrite (digits_of_Z_nonpos d Hd) in *.
-           destruct (Z_lt_le_dec 0 p) as [Hp|Hp]; [|now apply json_number_render_pos_zero].
-           exfalso. destruct (parse_zero_candidate s p Hp) as (z & Hz). rewrite Hz in Hacc.
-           cbn [pf_is f_same] in Hacc. discriminate.
-      * unfold fmt_exact. destruct (Z.leb_spec 0 e) as [He|He].
-        -- assert (Hz : (0 < Z.pos m * 2 ^ e)%Z) by (apply Z.mul_pos_pos; [lia|apply Z.pow_pos_nonneg; lia]).
-           destruct (digits_of_Z_head _ Hz) as (c & r & Hds & Hc).
-           eapply json_number_render_pos; [exact Hds|exact Hc|]. apply digits_of_Z_digits.
-        -- assert (Hz : (0 < Z.pos m * pow5 (- e))%Z) by (apply Z.mul_pos_pos; [lia|apply pow5_pos]).
-           destruct (digits_of_Z_head _ Hz) as (c & r & Hds & Hc).
-           eapply json_number_render_pos; [exact Hds|exact Hc|]. apply digits_of_Z_digits.
-Qed.
-Print Assumptions format_json_is_json_number.
+(* ---- end copy ---- *)
 
 (* ------------------------------------------------------------------ *)
-(* Hnum_roundtrip for the numbers printed in positional notation        *)
+(* the Num fact, from Json/v: format_f of a finite double is a JSON number *)
 
-(* zero, or 1e-6 <= |x| < 1e21: encoding/json uses strconv's 'f' format *)
-Definition positional_range (x : float) : bool :=
-  match x with
-  | S754_zero _ => true
-  | S754_finite _ _ _ => negb (f_ltb (f_abs x) f_1e_6 || negb (f_ltb (f_abs x) f_1e21))
-  | _ => false
-  end.
-
-Theorem format_json_roundtrip_positional : forall x b,
-  positional_range x = true -> valid_binary prec emax x = true ->
-  format_json x = Some b -> parse_float b = PFok x.
+Local Open Scope N_scope.
+Lemma format_f_json_number : forall x, f_is_finite x = true -> json_number (format_f x) = true.
 Proof.
-  intros x b Hr Hv H. destruct x as [s|s| |s m e]; try discriminate.
-  - cbn [format_json] in H. apply Some_inj in H; subst b. now apply format_f_roundtrip.
-  - cbn [format_json] in H. cbn [positional_range] in Hr. apply negb_true_iff in Hr. rewrite Hr in H.
-    apply Some_inj in H; subst b. now apply format_f_roundtrip.
-Qed.
-Print Assumptions format_json_roundtrip_positional.
-
-(* ------------------------------------------------------------------ *)
-(* The Json theorems with Hnum_syntax discharged                         *)
-
-Section WithRoundtrip.
-  (* the one remaining fact about Num/F64 (open for format_json's exponent notation) *)
-  Hypothesis Hnum_roundtrip : forall x b,
-    is_float64 x -> format_json x = Some b -> parse_float b = PFok x.
-
-  Let Hsyn : forall x b, is_float64 x -> format_json x = Some b -> json_number b = true :=
-    fun x b _ H => format_json_is_json_number x b H.
-
-  Theorem marshal_never_malformed_rt : forall v b, finite_numbers v -> marshal_indent v = Some b ->
-    exists v', decode_next b = DValue v' [].
-  Proof. exact (marshal_never_malformed Hsyn Hnum_roundtrip). Qed.
-
-  Theorem marshal_indent_decodes_rt : forall v b, finite_numbers v -> marshal_indent v = Some b ->
-    decode_next b = DValue (jnorm v) [].
-  Proof. exact (marshal_indent_decodes Hsyn Hnum_roundtrip). Qed.
-
-  Theorem marshal_roundtrip_rt : forall v b,
-    wf_jvalue v -> finite_numbers v -> valid_utf8_strings v -> marshal_indent v = Some b ->
-    exists v', decode_next b = DValue v' [] /\ jeq v v' = true.
-  Proof. exact (marshal_roundtrip Hsyn Hnum_roundtrip). Qed.
-
-  Theorem marshal_roundtrip_eq_rt : forall v b,
-    wf_jvalue v -> finite_numbers v -> valid_utf8_strings v -> marshal_indent v = Some b ->
-    decode_next b = DValue v [].
-  Proof. exact (marshal_roundtrip_eq Hsyn Hnum_roundtrip). Qed.
-End WithRoundtrip.
-
-(* ------------------------------------------------------------------ *)
-(* ... and with no hypothesis at all when every number is in the positional range *)
-
-Definition plain_float (x : float) : Prop := is_float64 x /\ positional_range x = true.
-Definition plain_numbers (v : jvalue) : Prop := nums_sat plain_float v.
-
-Lemma plain_syntax : forall x b, plain_float x -> format_json x = Some b -> json_number b = true.
-Proof. intros x b _ H. now apply format_json_is_json_number in H. Qed.
-
-Lemma plain_roundtrip : forall x b, plain_float x -> format_json x = Some b -> parse_float b = PFok x.
-Proof. intros x b [Hv Hr] H. now apply format_json_roundtrip_positional. Qed.
-
-Theorem marshal_indent_decodes_plain : forall v b, plain_numbers v -> marshal_indent v = Some b ->
-  decode_next b = DValue (jnorm v) [].
-Proof.
-  intros v b Hn H. unfold marshal_indent in H.
-  destruct (jdepth v <=? max_nesting_depth) eqn:E; [|discriminate]. apply N.leb_le in E.
-  exact (enc_decodes plain_float plain_syntax plain_roundtrip true v b H Hn E).
+  intros x Hfin. destruct x as [s|s| |s m e]; try discriminate.
+  - destruct s; vm_compute; reflexivity.
+  - unfold format_f.
+    destruct (pf_is (parse_float (fmt_candidate s m e)) (S754_finite s m e)) eqn:Hacc.
+    + unfold fmt_candidate in *. destruct (shortest m e) as [d p].
+      destruct (Z_lt_le_dec 0 d) as [Hd|Hd].
+      * destruct (digits_of_Z_head d Hd) as (c & r & Hds & Hc).
+        eapply json_number_render_pos; [exact Hds|exact Hc|].
+        apply F64Proofs.digits_of_Z_digits.
+      * rewrite (digits_of_Z_nonpos d Hd) in *.
+        destruct (Z_lt_le_dec 0 p) as [Hp|Hp]; [|now apply json_number_render_pos_zero].
+        exfalso. destruct (parse_zero_candidate s p Hp) as (z & Hz). rewrite Hz in Hacc.
+        cbn [pf_is f_same] in Hacc. discriminate.
+    + unfold fmt_exact. destruct (0 <=? e)%Z eqn:He.
+      * assert (Hz : (0 < Z.pos m * 2 ^ e)%Z).
+        { apply Z.mul_pos_pos; [lia|]. apply Z.pow_pos_nonneg; lia. }
+        destruct (digits_of_Z_head _ Hz) as (c & r & Hds & Hc).
+        eapply json_number_render_pos; [exact Hds|exact Hc|].
+        apply F64Proofs.digits_of_Z_digits.
+      * assert (Hz : (0 < Z.pos m * pow5 (- e))%Z).
+        { apply Z.mul_pos_pos; [lia|apply F64Proofs.pow5_pos]. }
+        destruct (digits_of_Z_head _ Hz) as (c & r & Hds & Hc).
+        eapply json_number_render_pos; [exact Hds|exact Hc|].
+        apply F64Proofs.digits_of_Z_digits.
 Qed.
 
-Theorem marshal_never_malformed_plain : forall v b, plain_numbers v -> marshal_indent v = Some b ->
-  exists v', decode_next b = DValue v' [].
-Proof. intros v b Hn H. exists (jnorm v). now apply marshal_indent_decodes_plain. Qed.
-
-Theorem marshal_roundtrip_plain : forall v b,
-  wf_jvalue v -> plain_numbers v -> valid_utf8_strings v -> marshal_indent v = Some b ->
-  decode_next b = DValue v [] /\ jeq v v = true.
+(* C17, last clause, in full *)
+Theorem pretty_is_json_full : forall j,
+  json_plain j -> jdepth j <= max_nesting_depth ->
+  decode_next (jrender true j) = DValue (jsort j) [].
 Proof.
-  intros v b Hwf Hn Hvs H. split; [|apply jeq_refl].
-  rewrite (marshal_indent_decodes_plain v b Hn H). now rewrite jnorm_id.
+  intros j Hp Hd. apply pretty_is_json; auto. intros x Hf _. now apply format_f_json_number.
 Qed.
 
-Print Assumptions marshal_never_malformed_rt.
-Print Assumptions marshal_roundtrip_rt.
-Print Assumptions marshal_roundtrip_eq_rt.
-Print Assumptions marshal_indent_decodes_plain.
-Print Assumptions marshal_never_malformed_plain.
-Print Assumptions marshal_roundtrip_plain.
+Lemma nums_json_plain : forall j, json_plain j -> nums_json j.
+Proof. apply nums_json_of_plain. intros x Hf _. now apply format_f_json_number. Qed.
+
+Theorem pretty_container_is_json_full :
+  forall h p v j, doc_at h p v j -> Pos.le p (Sem.Value.next h) ->
+    jcont j = true -> json_plain j -> keys_sorted j -> jdepth j <= max_nesting_depth ->
+    exists b, Sem.Value.pretty_string h v = Some b /\ decode_next b = DValue j [].
+Proof.
+  intros h p v j Hd Hp Hc Hpl Hk Hdep.
+  eapply pretty_container_is_json; eauto. now apply nums_json_plain.
+Qed.
